@@ -3,6 +3,10 @@
 // Contracts for package netflow9, checked by /verif/govc (comment-only file; it declares nothing).
 package netflow9
 
+// decoding does a bounded amount of work per datagram (C02): no function of this package may wait on a channel;
+// a channel operation has to be a case of a select with a default clause
+//@ pkgopt nonblocking *
+
 //@ globalinv shardNo == 32
 // the template map of a shard may only be touched under the shard's RWMutex (C10)
 //@ guarded TemplatesShard.Templates
@@ -76,6 +80,7 @@ package netflow9
 //@   ensures err == nil ==> r.count == old(r.count) + 4 + 4*tr.FieldCount && tr.TemplateID == be16(r.base, old(r.count)) && tr.FieldCount == be16(r.base, old(r.count)+2)
 //@   ensures err == nil ==> len(tr.FieldSpecifiers) == old(len(tr.FieldSpecifiers)) + tr.FieldCount && len(tr.ScopeFieldSpecifiers) == old(len(tr.ScopeFieldSpecifiers))
 //@   ensures err != nil ==> err == reader.errReader
+//@   ensures [accept] old(len(r.data)) >= 4 + 4*be16(r.base, old(r.count)+2) ==> err == nil   // a template record that is wholly present is accepted
 //@   modifies tr, r.data, r.count
 //@   loop 1 @ for i > 0 #4279f674
 //@     invariant rdr(r) && r.base == old(r.base) && tr != nil
@@ -92,13 +97,22 @@ package netflow9
 //@   ensures inv(r) && r.base == old(r.base) && r.count >= old(r.count)
 //@   ensures err == nil ==> r.count >= old(r.count) + 6 && tr.TemplateID == be16(r.base, old(r.count))
 //@   ensures err != nil ==> err == reader.errReader
+//@   ensures [lengths] err == nil ==> len(tr.ScopeFieldSpecifiers) == old(len(tr.ScopeFieldSpecifiers)) + be16(r.base, old(r.count)+2) / 4 && len(tr.FieldSpecifiers) == old(len(tr.FieldSpecifiers)) + be16(r.base, old(r.count)+4) / 4
+//@       && r.count == old(r.count) + 6 + 4*(be16(r.base, old(r.count)+2) / 4 + be16(r.base, old(r.count)+4) / 4)   // as many scope and option specifiers as the two declared lengths hold, nothing else consumed
+//@   ensures [accept] old(len(r.data)) >= 6 + 4*(be16(r.base, old(r.count)+2) / 4 + be16(r.base, old(r.count)+4) / 4) ==> err == nil
 //@   modifies tr, r.data, r.count
 //@   loop 1 @ for i > 0 #20d2f6e4
 //@     invariant rdr(r) && r.base == old(r.base) && tr != nil && r.count >= old(r.count) + 6 && tr.TemplateID == be16(r.base, old(r.count)) && 0 <= i
+//@     invariant [counts] th.OptionScopeLen == be16(r.base, old(r.count)+2) && th.OptionLen == be16(r.base, old(r.count)+4) && i <= th.OptionScopeLen / 4
+//@         && len(tr.ScopeFieldSpecifiers) == old(len(tr.ScopeFieldSpecifiers)) + (th.OptionScopeLen / 4 - i) && len(tr.FieldSpecifiers) == old(len(tr.FieldSpecifiers))
+//@         && r.count == old(r.count) + 6 + 4*(th.OptionScopeLen / 4 - i)
 //@     step [scope] spec9Appended(tr.ScopeFieldSpecifiers, iter(tr.ScopeFieldSpecifiers), r, iter(r.count)) && tr.FieldSpecifiers == iter(tr.FieldSpecifiers)
 //@     decreases i
 //@   loop 2 @ for i > 0 #fbb080f7
 //@     invariant rdr(r) && r.base == old(r.base) && tr != nil && r.count >= old(r.count) + 6 && tr.TemplateID == be16(r.base, old(r.count)) && 0 <= i
+//@     invariant [counts] th.OptionScopeLen == be16(r.base, old(r.count)+2) && th.OptionLen == be16(r.base, old(r.count)+4) && i <= th.OptionLen / 4
+//@         && len(tr.ScopeFieldSpecifiers) == old(len(tr.ScopeFieldSpecifiers)) + th.OptionScopeLen / 4 && len(tr.FieldSpecifiers) == old(len(tr.FieldSpecifiers)) + (th.OptionLen / 4 - i)
+//@         && r.count == old(r.count) + 6 + 4*(th.OptionScopeLen / 4 + th.OptionLen / 4 - i)
 //@     step [option] spec9Appended(tr.FieldSpecifiers, iter(tr.FieldSpecifiers), r, iter(r.count)) && tr.ScopeFieldSpecifiers == iter(tr.ScopeFieldSpecifiers)
 //@     decreases i
 
@@ -116,32 +130,47 @@ package netflow9
 //@   ensures rdr(d.reader) && d.reader.base == old(d.reader.base) && d.raddr == old(d.raddr) && d.reader.count >= old(d.reader.count)
 //@   ensures err == nil ==> len(result) == len(tr.ScopeFieldSpecifiers) + len(tr.FieldSpecifiers)
 //@   ensures [progress] err == nil ==> d.reader.count > old(d.reader.count)
+//@   ensures [exact] err == nil ==> d.reader.count == old(d.reader.count) + recLen9(tr)   // a record occupies exactly the sum of its template's field lengths
 //@   ensures [class] err != nil ==> err == reader.errReader || nonfatal9(err)
 //@   modifies d.reader.data, d.reader.count
 //@   loop 1 @ for i < len(tr.ScopeFieldSpecifiers) #b2723c6b
 //@     invariant rdr(d.reader) && d.reader.base == old(d.reader.base) && d.raddr == old(d.raddr) && d.reader.count >= old(d.reader.count) && r == d.reader
 //@     invariant 0 <= i && i <= len(tr.ScopeFieldSpecifiers) && len(fields) == i
+//@     invariant [sum] d.reader.count == old(d.reader.count) + sumLen9(tr.ScopeFieldSpecifiers, i) && sumStep9(tr.ScopeFieldSpecifiers, i)
 //@     step [model] fd9Model(tr.ScopeFieldSpecifiers[i], m)
 //@     step [kept] fd9Kept(fields, iter(fields))
+//@     leave [unknown.nonfatal] !ok ==> nonfatal9(ret2)   // an element the model does not know ends the record with a non-fatal error (C09)
 //@     step [value] fd9Value(fields[len(fields)-1], tr.ScopeFieldSpecifiers[i], m, d.reader, iter(d.reader.count))
 //@     decreases len(tr.ScopeFieldSpecifiers) - i
 //@   loop 2 @ for i < len(tr.FieldSpecifiers) #964305e6
 //@     invariant rdr(d.reader) && d.reader.base == old(d.reader.base) && d.raddr == old(d.raddr) && d.reader.count >= old(d.reader.count) && r == d.reader
 //@     invariant 0 <= i && i <= len(tr.FieldSpecifiers) && len(fields) == len(tr.ScopeFieldSpecifiers) + i
+//@     invariant [sum] d.reader.count == old(d.reader.count) + sumLen9(tr.ScopeFieldSpecifiers, len(tr.ScopeFieldSpecifiers)) + sumLen9(tr.FieldSpecifiers, i) && sumStep9(tr.FieldSpecifiers, i)
 //@     step [model] fd9Model(tr.FieldSpecifiers[i], m)
 //@     step [kept] fd9Kept(fields, iter(fields))
+//@     leave [unknown.nonfatal] !ok ==> nonfatal9(ret2)
 //@     step [value] fd9Value(fields[len(fields)-1], tr.FieldSpecifiers[i], m, d.reader, iter(d.reader.count))
 //@     decreases len(tr.FieldSpecifiers) - i
 
-//@ uninterp specMinRec9(tr TemplateRecord) mathint
+// The length of a data record: the sum of the lengths of the scope and option/flow field specifiers (NetFlow v9 fields
+// have fixed lengths), at least 1. sumLen9(fs, k) is the sum over the first k specifiers, defined by the two axioms
+// (a definition by primitive recursion; the step axiom is instantiated only where a contract writes sumStep9(fs, k)).
+//@ uninterp sumLen9(fs []TemplateFieldSpecifier, k mathint) mathint
+//@ uninterp sumStep9(fs []TemplateFieldSpecifier, k mathint) bool
+//@ axiom local.sumLen9.zero: forall fs []TemplateFieldSpecifier :: {sumLen9(fs, 0)} sumLen9(fs, 0) == 0
+//@ axiom local.sumLen9.step: forall fs []TemplateFieldSpecifier, k mathint :: {sumStep9(fs, k)} sumStep9(fs, k) && (k >= 0 ==> sumLen9(fs, k+1) == sumLen9(fs, k) + fs.arr[fs.off+k].Length)
+//@ spec recLen9(tr TemplateRecord) mathint = sumLen9(tr.ScopeFieldSpecifiers, len(tr.ScopeFieldSpecifiers)) + sumLen9(tr.FieldSpecifiers, len(tr.FieldSpecifiers))
+//@ spec specMinRec9(tr TemplateRecord) mathint = recLen9(tr) < 1 ? 1 : recLen9(tr)
 //@ func (TemplateRecord).minRecordLen
 //@   names tr _ n _ f _ f
 //@   ensures result >= 1
-//@   ensures [trusted.def] result == specMinRec9(tr)
+//@   ensures [def] result == specMinRec9(tr)   // computed from the field specifiers, from nothing else
 //@   loop 1 @ range tr.ScopeFieldSpecifiers #58dd9f46
 //@     invariant 0 <= n && n <= 65535 * range_i
+//@     invariant [sum] n == sumLen9(tr.ScopeFieldSpecifiers, range_i) && sumStep9(tr.ScopeFieldSpecifiers, range_i)
 //@   loop 2 @ range tr.FieldSpecifiers #58dd9f46
 //@     invariant 0 <= n && n <= 65535 * (len(tr.ScopeFieldSpecifiers) + range_i)
+//@     invariant [sum] n == sumLen9(tr.ScopeFieldSpecifiers, len(tr.ScopeFieldSpecifiers)) + sumLen9(tr.FieldSpecifiers, range_i) && sumStep9(tr.FieldSpecifiers, range_i)
 
 //@ func NewDecoder
 //@   names raddr b _
@@ -151,6 +180,9 @@ package netflow9
 // C09: a set is either consumed wholly (count advanced by at least its declared length; exactly when
 // no record overran the set) or the error is fatal and Decode returns nil.
 //@ func (*Decoder).decodeSet
+//@   names d mem msg _ startCount setHeader err tr err ok minLen setId tr data leftoverBytes _ skipErr
+//@   opt lasterr decodeData
+//@   opt ownership a template handed to the cache is not written again by the set loop (no specifier buffer shared between templates)
 //@   names d mem msg _ startCount setHeader err tr err ok minLen setId tr data leftoverBytes _ skipErr
 //@   opt countcalls insert
 //@   callassert insert: sameview(arg1, d.raddr) && arg0 == arg2.TemplateID
@@ -186,6 +218,7 @@ package netflow9
 //@     exit [allrecords] err == nil && setHeader.FlowSetID > 255 ==> setHeader.Length - (d.reader.count - startCount) < specMinRec9(tr) || len(d.reader.data) < specMinRec9(tr)
 //@     invariant [tpl] setHeader.FlowSetID > 255 && cacheHas9(old(mem), d.raddr, setHeader.FlowSetID) ==> tr == cacheGet9(old(mem), d.raddr, setHeader.FlowSetID)
 //@     step [record] len(msg.DataSets) == iter(len(msg.DataSets)) || (len(msg.DataSets) == iter(len(msg.DataSets)) + 1 && setHeader.FlowSetID > 1)
+//@     step [errclass] setHeader.FlowSetID > 255 && nonfatal9(decodeData_err) ==> nonfatal9(err)   // a record-level error keeps its class: the rest of the flowset is skipped and the message goes on (C09)
 //@     step [stored] setHeader.FlowSetID <= 1 && err == nil ==> calls_insert == iter(calls_insert) + 1   // every template record that parses is stored (with the arguments the call assertions fix), exactly once
 //@     invariant [wf] wellFormed9(mem)
 //@     decreases len(d.reader.data) + (err == nil ? 1 : 0)
@@ -230,6 +263,8 @@ package netflow9
 //@   aliases result m[result1 % 32]
 
 //@ func (*MemCache).insert
+//@   names m id addr tr shard key
+//@   opt consumes tr   the cache keeps the template, specifier slices included: the caller must not go on writing into them (C04/C10)
 //@   names m id addr tr shard key
 //@   requires m != nil && wellFormed9(m)
 //@   ensures wellFormed9(m) && len(m) == old(len(m))
